@@ -756,7 +756,41 @@ func corrHistory(rep *report, r *rng, hidx int, probe int) (string, [3]int, int)
 				}
 				emit(fmt.Sprintf("ma:%d:%d", m, a), res)
 			}
-		case k < 86: // receiver (never the sender's node, one interface per node: D22 is C05's)
+		case k < 88: // multiplexer signal with two groups of fresh standard signals (the groups' own slices are handed out by GetSignalGroups)
+			mux, err := acmelib.NewMultiplexerSignal(fmt.Sprintf("mx%d", c.nextSig), 2, 24)
+			if err != nil {
+				continue
+			}
+			var groups [][]int
+			for g := 0; g < 2; g++ {
+				var hs []int
+				start := 0
+				for j := 0; j < r.intn(3); j++ {
+					ti := r.intn(len(c.types))
+					sig, err := acmelib.NewStandardSignal(fmt.Sprintf("s%d", c.nextSig), c.types[ti])
+					if err != nil {
+						continue
+					}
+					sg := c.nextSig
+					c.nextSig++
+					c.sigTab = append(c.sigTab, sig)
+					c.sigObjs = append(c.sigObjs, sig)
+					c.sigID[sig.EntityID()] = sg
+					emit(fmt.Sprintf("ns:%d:-1", ti), []int{0})
+					if mux.InsertSignal(sig, start, g) == nil {
+						hs = append(hs, sg)
+						start += sig.GetSize()
+					}
+				}
+				groups = append(groups, hs)
+			}
+			sg := c.nextSig
+			c.nextSig++
+			c.sigTab = append(c.sigTab, mux)
+			c.sigObjs = append(c.sigObjs, mux)
+			c.sigID[mux.EntityID()] = sg
+			emit(fmt.Sprintf("nx:%s/%s", dash(ints(groups[0])), dash(ints(groups[1]))), []int{0})
+		case k < 90: // receiver (never the sender's node, one interface per node: D22 is C05's)
 			if len(c.msgs) == 0 {
 				continue
 			}
@@ -799,7 +833,57 @@ func corrHistory(rep *report, r *rng, hidx int, probe int) (string, [3]int, int)
 }
 
 func (c *cworld) readOp(r *rng, snapRO func(string, func() []int)) {
-	switch r.intn(23) {
+	switch r.intn(26) {
+	case 23:
+		if len(c.sigTab) == 0 {
+			return
+		}
+		sg := r.intn(len(c.sigTab))
+		// prefer a multiplexer signal when there is one
+		for tries := 0; tries < 3 && c.sigTab[sg].Kind() != acmelib.SignalKindMultiplexer; tries++ {
+			sg = r.intn(len(c.sigTab))
+		}
+		snapRO(fmt.Sprintf("Rsg:%d", sg), func() []int {
+			var res []int
+			if mux, err := c.sigTab[sg].ToMultiplexer(); err == nil {
+				for _, g := range mux.GetSignalGroups() {
+					for _, s := range g {
+						res = append(res, c.sigID[s.EntityID()])
+					}
+					res = append(res, -1)
+				}
+			}
+			return res
+		})
+	case 24:
+		if len(c.msgs) == 0 {
+			return
+		}
+		m := r.intn(len(c.msgs))
+		snapRO(fmt.Sprintf("Rmf:%d", m), func() []int {
+			msg := c.msgs[m]
+			return []int{int(msg.ID()), int(msg.Priority()), msg.SizeByte(), msg.CycleTime()}
+		})
+	case 25:
+		// Network.Buses() on a network holding every bus of the history (buses are named b0, b1, ...:
+		// sorted by name = by handle).  The network exists only for this call: the buses of the
+		// histories stay outside networks (their error routes end at the bus).
+		snapNet := func() []int {
+			net := acmelib.NewNetwork("tmpnet")
+			for _, b := range c.buses {
+				if net.AddBus(b) != nil {
+					return []int{-1}
+				}
+			}
+			var res []int
+			for _, b := range net.Buses() {
+				res = append(res, c.busHandle(b))
+			}
+			net.RemoveAllBuses()
+			return res
+		}
+		res := snapNet()
+		snapRO("Rnb", func() []int { return res })
 	case 15:
 		b := r.intn(len(c.buses))
 		snapRO(fmt.Sprintf("Rba:%d", b), func() []int {
